@@ -39,6 +39,9 @@ type C17Op struct {
 	N string `json:"n,omitempty"`
 	D int    `json:"d,omitempty"`
 	I int    `json:"i,omitempty"`
+	// auto only: the qualifier put before the name ("texttable." in some ASCII case); the
+	// name is then a decoration name whatever it spells (Props/C19.v c19_texttable_qualified)
+	P string `json:"p,omitempty"`
 }
 
 type C17Spec struct {
@@ -98,10 +101,10 @@ func c17Exec(op c17op, tabs *[]*texttable.TextTable) (ev C17Ev) {
 		ev.R = &r
 		*tabs = append(*tabs, tt)
 	case "auto":
-		rt := auto.New(op.name)
+		rt := auto.New(op.P + op.name)
 		tt, isText := rt.(*texttable.TextTable)
 		if !isText {
-			ev.R = &RRes{K: "panic", Msg: fmt.Sprintf("auto.New(%q) is a %T", op.name, rt)}
+			ev.R = &RRes{K: "panic", Msg: fmt.Sprintf("auto.New(%q) is a %T", op.P+op.name, rt)}
 			tt = texttable.Wrap(goodTable())
 		} else {
 			rt.AddHeaders("h1", "h2")
@@ -390,7 +393,122 @@ func c17Worker() {
 	if msg := c17Stress(3, 3, 160); msg != "" && out.RawBad == "" {
 		out.RawBad = msg
 	}
+	if msg := c17Overwrite(2, 4, 1500); msg != "" && out.RawBad == "" {
+		out.RawBad = msg
+	}
 	json.NewEncoder(os.Stdout).Encode(out)
+}
+
+// c17Overwrite: lookups under fire.  Each of `writers` goroutines owns one
+// already registered name and overwrites it `versions` times, every version a
+// decoration of its own (the version number is written into its Horizontal
+// field), publishing the number of the last registration that has returned;
+// `readers` goroutines look the names up in a tight loop (the same name many
+// times in a row, then the next), reading the counter before and after each
+// lookup: what Named returns must be a version registered under that name, not
+// older than the last one that had returned before the call and not newer than
+// one that could have started before it ended.  After the join, Named(name) is
+// the LAST registration, also through SetDecorationNamed and auto.New.
+func c17Overwrite(writers, readers, versions int) string {
+	if runtime.GOMAXPROCS(0) < 4 {
+		defer runtime.GOMAXPROCS(runtime.GOMAXPROCS(4))
+	}
+	version := func(k, v int) decoration.Decoration {
+		return decoration.Decoration{Horizontal: fmt.Sprintf("%d:%d", k, v), Vertical: "|", HOuter: "-"}
+	}
+	decode := func(d decoration.Decoration) (k, v int, ok bool) {
+		_, err := fmt.Sscanf(d.Horizontal, "%d:%d", &k, &v)
+		return k, v, err == nil
+	}
+	names := make([]string, writers)
+	for k := range names {
+		names[k] = fmt.Sprintf("overwritten-%d", k)
+		decoration.RegisterDecorationName(names[k], version(k, 0))
+	}
+	progress := make([]int32, writers) // last version whose registration has returned
+	var active int32 = int32(writers)
+	var first atomic.Value
+	fail := func(format string, a ...interface{}) {
+		first.CompareAndSwap(nil, "lookups under fire: "+fmt.Sprintf(format, a...))
+	}
+	start := make(chan struct{})
+	var wg sync.WaitGroup
+	for k := 0; k < writers; k++ {
+		wg.Add(1)
+		go func(k int) {
+			defer wg.Done()
+			<-start
+			for v := 1; v <= versions; v++ {
+				decoration.RegisterDecorationName(names[k], version(k, v))
+				atomic.StoreInt32(&progress[k], int32(v))
+				// leave the readers a moment with this version in force (a reader is judged
+				// against the versions whose registration had returned before its call)
+				for spin := 0; spin < 40+(v%7)*20; spin++ {
+					atomic.LoadInt32(&active)
+				}
+				if v%16 == 0 {
+					runtime.Gosched()
+				}
+			}
+			atomic.AddInt32(&active, -1)
+		}(k)
+	}
+	var lookups int64
+	for l := 0; l < readers; l++ {
+		wg.Add(1)
+		go func(l int) {
+			defer wg.Done()
+			<-start
+			for i := 0; i < 2000000; i++ {
+				last := atomic.LoadInt32(&active) == 0
+				k := (l + i/64) % writers
+				lo := atomic.LoadInt32(&progress[k])
+				d := decoration.Named(names[k])
+				hi := atomic.LoadInt32(&progress[k])
+				atomic.AddInt64(&lookups, 1)
+				dk, dv, ok := decode(d)
+				switch {
+				case !ok || dk != k:
+					fail("Named(%q) returned a decoration never registered under that name (%q)", names[k], d.Horizontal)
+				case int32(dv) < lo:
+					fail("Named(%q) returned version %d although the registration of version %d had returned before the call", names[k], dv, lo)
+				case int32(dv) > hi+1:
+					fail("Named(%q) returned version %d, but only versions up to %d can have been started", names[k], dv, hi+1)
+				}
+				if last || first.Load() != nil {
+					return
+				}
+			}
+		}(l)
+	}
+	close(start)
+	wg.Wait()
+	// all registrations are over: every route sees the last one
+	for round := 0; round < 3; round++ {
+		for k, n := range names {
+			if _, dv, ok := decode(decoration.Named(n)); !ok || dv != versions {
+				fail("after the join Named(%q) is version %d, the last registration was version %d", n, dv, versions)
+			}
+			want, _ := texttable.Wrap(goodTable()).SetDecoration(version(k, versions)).Render()
+			tt := texttable.Wrap(goodTable())
+			if _, err := tt.SetDecorationNamed(n); err != nil {
+				fail("after the join SetDecorationNamed(%q): %v", n, err)
+			}
+			if got, _ := tt.Render(); got != want {
+				fail("after the join a table selected by %q does not render with the last registration", n)
+			}
+			rt := auto.New(n)
+			rt.AddHeaders("h1", "h2")
+			rt.AddRowItems("a", "b")
+			if got, _ := rt.Render(); got != want {
+				fail("after the join auto.New(%q) does not render with the last registration", n)
+			}
+		}
+	}
+	if v := first.Load(); v != nil {
+		return fmt.Sprintf("%s (%d lookups judged)", v.(string), atomic.LoadInt64(&lookups))
+	}
+	return ""
 }
 
 // c17Stress: the listing under fire.  `writers` goroutines register fresh names
@@ -728,6 +846,43 @@ func autoOK(name string) bool {
 	return true
 }
 
+// after a "texttable." qualifier any dot-free ASCII name is a decoration name
+func autoQualOK(name string) bool {
+	for i := 0; i < len(name); i++ {
+		if name[i] == '.' || name[i] >= 128 {
+			return false
+		}
+	}
+	return true
+}
+
+var c17Qualifiers = []string{"texttable.", "TextTable.", "TEXTTABLE.", "tExTtAbLe."}
+var c17Keywords = []string{"csv", "html", "json", "markdown", "texttable", "CSV", "Html", "jSoN", "MARKDOWN", "TextTable"}
+
+// a world about the format keywords used as decoration names: unknown as long as nobody
+// registers them (directly, through auto after a texttable qualifier), the registered
+// decoration afterwards; bare, they are formats and never reach the registry
+func c17KeywordWorld(r *RNG) C17Spec {
+	var p []C17Op
+	for i, kw := range c17Keywords {
+		p = append(p, C17Op{K: "auto", P: c17Qualifiers[i%len(c17Qualifiers)], N: kw})
+		if i%3 == 0 {
+			p = append(p, C17Op{K: "set", N: kw}, C17Op{K: "named", N: kw})
+		}
+	}
+	for i, kw := range c17Keywords {
+		if i%2 == 0 {
+			p = append(p, C17Op{K: "reg", N: kw, D: 7 + i%7})
+		}
+		p = append(p, C17Op{K: "auto", P: pick(r, c17Qualifiers), N: kw}, C17Op{K: "auto", P: pick(r, c17Qualifiers), N: pick(r, c17Keywords)})
+	}
+	p = append(p, C17Op{K: "names"}, C17Op{K: "styles"})
+	for i := range c17Keywords {
+		p = append(p, C17Op{K: "render", I: i})
+	}
+	return C17Spec{Mode: "seq", Progs: [][]C17Op{p}}
+}
+
 // a name to read: one of the pool, or one that merely resembles it
 func c17ReadName(r *RNG, names []string) string {
 	n := pick(r, names)
@@ -758,6 +913,12 @@ func c17RandOp(r *RNG, names []string, decs []int, nsets *int, conc bool) C17Op 
 	case k < 78 || *nsets == 0:
 		*nsets++
 		n := c17ReadName(r, names)
+		if r.Pct(12) {
+			return C17Op{K: "auto", P: pick(r, c17Qualifiers), N: pick(r, c17Keywords)}
+		}
+		if r.Pct(25) && autoQualOK(n) {
+			return C17Op{K: "auto", P: pick(r, c17Qualifiers), N: qname(n)}
+		}
 		if r.Bool() && autoOK(n) {
 			return C17Op{K: "auto", N: qname(n)}
 		}
@@ -794,8 +955,8 @@ func c17TableSequences(L, perWorld int, add func(C17Spec)) int {
 			{K: "render", I: k},
 		}
 	}
-	emit := func(first string, rest []C17Op, unknown string, route string) {
-		prog = append(prog, C17Op{K: route, N: first})
+	emit := func(first string, rest []C17Op, unknown string, route string, qual string) {
+		prog = append(prog, C17Op{K: route, N: first, P: qual})
 		prog = append(prog, rest...)
 		// leave the built-in as it was for the next sequence
 		prog = append(prog, C17Op{K: "reg", N: "none", D: 2})
@@ -819,6 +980,10 @@ func c17TableSequences(L, perWorld int, add func(C17Spec)) int {
 				if fi >= 2 {
 					route = "auto"
 				}
+				qual := ""
+				if route == "auto" && seqNo%3 == 0 {
+					qual = c17Qualifiers[seqNo%len(c17Qualifiers)]
+				}
 				var rest []C17Op
 				for _, o := range seq {
 					c := o
@@ -834,7 +999,7 @@ func c17TableSequences(L, perWorld int, add func(C17Spec)) int {
 				if f == unknown {
 					f = u
 				}
-				emit(f, rest, u, route)
+				emit(f, rest, u, route, qual)
 			}
 			return
 		}
@@ -882,7 +1047,9 @@ func c17GrowthWorld(r *RNG, n int) C17Spec {
 		}
 		// what merely resembles a registered name names nothing
 		for _, nm := range []string{name + "x", name + "such", name[:len(name)-1], pick(r, []string{"none", "utf8-light", "ascii-simple", "utf8-double"}) + pick(r, []string{"r", "d", "2", "-v2"})} {
-			if r.Bool() && autoOK(nm) {
+			if r.Pct(30) && autoQualOK(nm) {
+				p = append(p, C17Op{K: "auto", P: pick(r, c17Qualifiers), N: qname(nm)})
+			} else if r.Bool() && autoOK(nm) {
 				p = append(p, C17Op{K: "auto", N: qname(nm)})
 			} else {
 				p = append(p, C17Op{K: "set", N: qname(nm)})
@@ -938,6 +1105,8 @@ func c17Gen(r *RNG, tier string) []json.RawMessage {
 	for _, n := range growth {
 		add(c17GrowthWorld(r, n))
 	}
+	add(c17KeywordWorld(r))
+	add(c17KeywordWorld(r))
 	// (b) random sequential histories over more names and the whole palette
 	nseq := 150
 	if tier == "thorough" {
@@ -1080,11 +1249,13 @@ func init() {
 			"{reg n d, named n, set n | n in {none (built-in), x}, d in {a complete decoration, EmptyDecoration}} + names + render 0; every per-table sequence " +
 			"'select by name (SetDecorationNamed or auto.New; the unknown name is a registered name plus a suffix), then 3 (thorough 4) of {SetDecorationNamed(unknown|built-in), SetDecoration(complete|field-by-field), Register(unknown,d|d'), Register(built-in,d'), Render}' " +
 			"(24 sequences per world, fresh unknown name and table each); worlds growing to 4-22 (thorough 40) registered names with RegisteredDecorationNames / auto.ListStyles " +
-			"after every registration and selections of names that merely resemble registered ones (n+x, n+such, n minus its last byte), directly and through auto.New; every other world is cold " +
+			"after every registration; two worlds about the format keywords as decoration names (auto.New(\"TextTable.CSV\") names a decoration, unknown until registered); selections of names that merely resemble registered ones (n+x, n+such, n minus its last byte), directly and through auto.New; every other world is cold " +
 			"(its first operation is the first thing the process asks of the registry; initial content taken to be the six documented built-ins); random sequential histories (4-15 ops, up to 8 names incl. a built-in, the empty string, a dotted name and a 0xFF byte, a palette of 14 decorations: " +
 			"Empty, the 6 built-ins, 3 Populate()d ones, 4 written field by field without Populate); concurrent runs of 4-8 " +
 			"(thorough 4-16) goroutines x 40-90 (50-250) ops with atomic-counter time stamps (every third run: half of the goroutines register new names of their own while the others list), " +
-			"read-back of every name after the join, and three unstamped passes for the race detector (the last two registering fresh names, every listing checked for the names that were there when the pass began); " +
+			"read-back of every name after the join, two passes judged on the spot (listings under fire: 3 goroutines registering 160 fresh names each while 3 list in a tight loop; " +
+			"lookups under fire: 2 goroutines overwriting their own name with 1,500 versioned decorations while 4 look the names up, each result checked against the versions whose registration had returned / could have started, " +
+			"and after the join every route must see the last version), and three unstamped passes for the race detector (the last two registering fresh names, every listing checked for the names that were there when the pass began); " +
 			"every listing the library returns is overwritten, extended within its capacity and reversed after it was recorded; " +
 			"the harness is built with -race and a race report in the child is part of the observation; a case is non-trivial when it both registers and reads; distinct = distinct specs",
 		Exhaustive: "all sequential histories of length 3 (thorough: 4) over the 10-operation alphabet (every shorter history is a prefix of one of them); all 2,048 (thorough 16,384) per-table sequences of length 4 (5) over the 8-operation table alphabet x 2 first names x 2 routes (SetDecorationNamed, auto.New)",
